@@ -2,6 +2,7 @@
   Request dispatcher of the driver.
 -/
 import Yabgp.Driver.Json
+import Yabgp.Driver.Spec
 
 namespace Yabgp.Glue
 open Lean (Json)
@@ -36,6 +37,30 @@ def dispatch (st : DState) (j : Json) : Except String (DState × Json) := do
   | "pfx.construct" => do
       let ps ← (← getArr j "prefixes").mapM readPfx
       pure (st, optHex (constructPrefixV4 (getBoolD j "addpath" false) ps))
+  | "open.parse" => do
+      pure (st, openResultJson (parseOpen (← getHex j "hex")))
+  | "open.construct" => do
+      let caps ← readLocalCaps (← j.getObjVal? "caps")
+      pure (st, optHex (constructOpen (← getNat j "version") (← getNat j "asn") (← getNat j "hold_time")
+                          (← getNat j "bgp_id") caps))
+  | "notif.parse" => do
+      pure (st, match parseNotification (← getHex j "hex") with
+                | some (e, s, d) => obj [("ok", arr [nat e, nat s, hex d])]
+                | none => raise)
+  | "notif.construct" => do
+      pure (st, optHex (constructNotification (← getNat j "error") (← getNat j "sub") (← getHex j "data")))
+  | "keepalive.parse" => do
+      pure (st, match parseKeepalive (← getHex j "hex") with
+                | .ok _ => obj [("ok", Json.null)]
+                | .error e => oerrJson e)
+  | "keepalive.construct" => pure (st, obj [("hex", hex constructKeepalive)])
+  | "rr.parse" => do
+      pure (st, match parseRouteRefresh (← getHex j "hex") with
+                | some (a, r, s) => obj [("ok", arr [nat a, nat r, nat s])]
+                | none => raise)
+  | "rr.construct" => do
+      pure (st, optHex (constructRouteRefresh (← getNat j "type") (← getNat j "afi") (← getNat j "res") (← getNat j "safi")))
+  | "spec.refopen" => do pure (st, ← specRefOpen j)
   | _ => throw s!"unknown op {op}"
 
 end Yabgp.Glue
